@@ -31,13 +31,23 @@ def seeds_for(pid):
     return out
 
 
+def benign_for(pid):
+    out = []
+    for mf in sorted(glob.glob(os.path.join(facts.VERIF, "selftest", "benign", "*.json"))):
+        m = json.load(open(mf))
+        if pid in m.get("checks", []):
+            out.append((os.path.basename(mf)[:-5], mf[:-5] + ".diff", m))
+    return out
+
+
 def run_selftests(pid, mod, ctx):
     results = []
     open_keys = {k["key"] for k in core.load_known() if k["property"] == pid and k.get("status") == "open"}
-    for name, d, meta in seeds_for(pid):
-        patch = os.path.join(d, "patch.diff")
+    jobs = [(name, os.path.join(d, "patch.diff"), True) for name, d, meta in seeds_for(pid)]
+    jobs += [(name, patch, False) for name, patch, meta in benign_for(pid)]
+    for name, patch, must_fire in jobs:
         scratch = tempfile.mkdtemp(prefix="p2pverif.")
-        res = {"seed": name, "patch": "seeded/%s/patch.diff" % name}
+        res = {"seed": name, "patch": os.path.relpath(patch, facts.VERIF), "expect": "fires" if must_fire else "silent"}
         try:
             repo2 = os.path.join(scratch, "repo")
             subprocess.run(["rsync", "-a", "--exclude", "target", "--exclude", ".git", facts.REPO + "/", repo2 + "/"], check=True)
@@ -64,7 +74,10 @@ def run_selftests(pid, mod, ctx):
                 pass
             fired = sorted({o["key"] for o in ctx2.obligations if not o["ok"] and o["key"] not in open_keys})
             res["fired"] = fired[:6]
-            res["result"] = "fires" if fired else "SILENT"
+            if must_fire:
+                res["result"] = "fires" if fired else "SILENT"
+            else:
+                res["result"] = "silent (as required for a behaviour-preserving refactoring)" if not fired else "FALSE-ALARM"
             results.append(res)
             shutil.rmtree(fd, ignore_errors=True)
         finally:
